@@ -76,6 +76,13 @@ def main(argv=None):
             print("replay: finding " + ("reproduced" if hit else "NOT reproduced on this tree"))
         return code
     except AnalysisError as e:
+        if report.findings:
+            # part of the analysis could not be completed, but violations were already established: report those
+            print(f"note: analysis incomplete ({e})")
+            try:
+                return report.finish(write=not args.no_write)
+            except AnalysisError:
+                pass
         print(f"ANALYSIS-ERROR property={prop} {e}")
         return 2
     except Exception as e:  # never let a traceback look like a violation
